@@ -442,26 +442,37 @@ func checkC12(c *Ctx, r *Report) {
 
 // fromLookupKey: v derives (through type asserts, extracts, conversions, json.Marshal, boxing) from a map lookup with constant key k.
 func fromLookupKey(v ssa.Value, k string, depth int) bool {
+	return fromLookupKeyEnv(v, k, depth, nil)
+}
+
+// fromLookupKeyEnv: v derives from a map lookup under the constant key k. A small repo helper that does the lookup for
+// its caller (`tokenCountOr(usage, "prompt_tokens", fallback)`) is entered with its parameters standing for this call's
+// arguments (env), so the key may be one of them.
+func fromLookupKeyEnv(v ssa.Value, k string, depth int, env map[*ssa.Parameter]ssa.Value) bool {
 	if v == nil || depth == 0 {
 		return false
 	}
 	switch x := v.(type) {
 	case *ssa.Lookup:
-		s, ok := constString(x.Index)
+		idx := x.Index
+		if p, ok := idx.(*ssa.Parameter); ok && env[p] != nil {
+			idx = env[p]
+		}
+		s, ok := constString(idx)
 		return ok && s == k
 	case *ssa.MakeInterface:
-		return fromLookupKey(x.X, k, depth-1)
+		return fromLookupKeyEnv(x.X, k, depth-1, env)
 	case *ssa.Extract:
-		return fromLookupKey(x.Tuple, k, depth-1)
+		return fromLookupKeyEnv(x.Tuple, k, depth-1, env)
 	case *ssa.TypeAssert:
-		return fromLookupKey(x.X, k, depth-1)
+		return fromLookupKeyEnv(x.X, k, depth-1, env)
 	case *ssa.Convert:
-		return fromLookupKey(x.X, k, depth-1)
+		return fromLookupKeyEnv(x.X, k, depth-1, env)
 	case *ssa.ChangeType:
-		return fromLookupKey(x.X, k, depth-1)
+		return fromLookupKeyEnv(x.X, k, depth-1, env)
 	case *ssa.Phi:
 		for _, e := range x.Edges {
-			if fromLookupKey(e, k, depth-1) {
+			if fromLookupKeyEnv(e, k, depth-1, env) {
 				return true
 			}
 		}
@@ -469,8 +480,27 @@ func fromLookupKey(v ssa.Value, k string, depth int) bool {
 		ci := describeCall(&x.Call)
 		if ci.Name == "Marshal" {
 			for _, a := range x.Call.Args {
-				if fromLookupKey(a, k, depth-1) {
+				if fromLookupKeyEnv(a, k, depth-1, env) {
 					return true
+				}
+			}
+		}
+		if sc := x.Call.StaticCallee(); sc != nil && sc.Blocks != nil && theCtx != nil && theCtx.inRepo(sc) && len(sc.Blocks) <= 8 {
+			env2 := map[*ssa.Parameter]ssa.Value{}
+			for i, p := range sc.Params {
+				if i < len(x.Call.Args) {
+					a := x.Call.Args[i]
+					if ap, ok := a.(*ssa.Parameter); ok && env[ap] != nil {
+						a = env[ap]
+					}
+					env2[p] = a
+				}
+			}
+			for _, ret := range returnsOf(sc) {
+				for _, rv := range ret.Results {
+					if fromLookupKeyEnv(rv, k, depth-1, env2) {
+						return true
+					}
 				}
 			}
 		}
